@@ -46,6 +46,11 @@ def _worker(args):
 from vf.harness import isolated as _isolated  # noqa: E402
 
 
+def harness_purity_label():
+    from vf.harness import M
+    return M.PURITY
+
+
 def run_parallel(work, jobs, case_limit_s):
     """own process pool: one forked child per case with a hard wall-clock limit (a z3 query that ignores its timeout, or compiled code that hangs,
     costs that case -- reported as inconclusive -- and nothing else).  Yields results as they complete; kills the rest when the consumer stops."""
@@ -176,7 +181,7 @@ def _search_witness(rec, n=24, seed=0, budget_s=60.0):
             break
         m = harness.M("float", rng=np.random.default_rng(seed * 1000 + 7919 + i))
         try:
-            goals = body(m, **rec.get("kwargs", {})) or {}
+            goals = harness.with_purity(m, body(m, **rec.get("kwargs", {}))) or {}
             exc = None
         except harness.SkipSample:
             continue
@@ -330,7 +335,8 @@ def main(argv=None):
             # float_strict cases: closed-form numpy code without an iterative solver, whose float64 run is reproducible to ~1e-12 while clauses are
             # compared at 1e-6: a clause failing on the REAL code for a concrete in-domain input is a counterexample in itself (used where the failure
             # is invisible to real arithmetic by construction: integer-typed arrays truncating real values)
-            strict = x.get("kind") == "float-goal" and r.get("float_strict")
+            # (the generic purity clause is an exact comparison of the caller's arrays before / after on the real code: always decisive)
+            strict = x.get("kind") == "float-goal" and (r.get("float_strict") or x.get("label") == harness_purity_label())
             if (key in both or strict or (x.get("kind") == "float-goal" and exact_fail)) and key not in promoted and not match_known(known, prop, r["case"], x.get("label", "")):
                 # the clause fails on a concrete input both in exact rational arithmetic (patched code) and on the real code: a replayable counterexample
                 promoted.add(key)
